@@ -861,7 +861,9 @@ def run_task(task):
             if bkind != 'active' and abs(refs['box'][1] - refs['free'][1]) > 1e-9:
                 raise RuntimeError(f'harness: inactive configuration {bname} changes the reference optimum')
             if full:
-                plan = [(s, v, 'estimate') for s in range(3) for v in variants]
+                plan = [(0, v, 'estimate') for v in variants]
+                others = variants if tier == 'quick' else [v for v in variants if v in ALGOS or v.endswith('@tol')]
+                plan += [(s, v, 'estimate') for s in (1, 2) for v in others]
                 plan += [(0, v, 'quick_estimate') for v in ALGOS]
             elif bname in ('none',) or bkind == 'active':
                 plan = [(ti % 3, v, 'estimate') for v in ALGOS]
